@@ -182,7 +182,9 @@ func isSyncType(t types.Type) bool {
 		t = p.Elem()
 	}
 	n, ok := t.(*types.Named)
-	return ok && n.Obj().Pkg() != nil && n.Obj().Pkg().Path() == "sync"
+	// locks, once, wait groups and atomics synchronise; a sync.Pool or sync.Map holds data shared between
+	// callers and is treated like any other package-level state
+	return ok && n.Obj().Pkg() != nil && (n.Obj().Pkg().Path() == "sync" && n.Obj().Name() != "Pool" && n.Obj().Name() != "Map" || n.Obj().Pkg().Path() == "sync/atomic")
 }
 
 func calleeDesc(c *Ctx, com *ssa.CallCommon) string {
